@@ -118,7 +118,41 @@ class KInterp(Interp):
                 else:
                     self.access(p, width, kind, e, masked=True)
             return U
+        m_ = ALIGNED_INTRINSIC.match(name)
+        if m_ and "mask" not in name:
+            # the instruction faults unless its memory operand is aligned to the vector width
+            width = 64 if name.startswith("_mm512") else 32 if name.startswith("_mm256") else 16
+            args = [self.rv(self.ev(a, env, fn, depth), env) for a in e.args()]
+            al = getattr(self, "align", None)
+            for p_ in args:
+                if isinstance(p_, Ptr) and isinstance(p_.off, int) and (p_.base.startswith("b") or p_.base.startswith("any")):
+                    self.access(p_, width, "w" if ("store" in name or "stream_s" in name or "stream_p" in name) and "load" not in name else "r", e)
+                    res = ((al or {}).get(p_.base, 0) + p_.off) % width
+                    if res:
+                        self.misaligned.append((name, e.l, p_.base, res, width))
+            return U
         return Interp.call(self, e, env, fn, depth)
+
+    misaligned = ()
+
+    def run(self, args):
+        self.misaligned = []
+        return Interp.run(self, args)
+
+
+ALIGNED_INTRINSIC = re.compile(r"^_mm(256|512)?_(load|store|stream|stream_load)_(si128|si256|si512|ps|pd|epi32|epi64)$")
+
+
+def _uses_aligned_intrinsic(P, fn, depth=0):
+    for n in fn.body.walk():
+        if n.k == "CallExpr" and n.callee:
+            if ALIGNED_INTRINSIC.match(n.callee) and "mask" not in n.callee:
+                return True
+            if depth < 2:
+                for g in P.by_name.get(n.callee, []):
+                    if g.file == fn.file and g.key() != fn.key() and _uses_aligned_intrinsic(P, g, depth + 1):
+                        return True
+    return False
 
 
 class _Rec:
@@ -168,7 +202,9 @@ def run_kernel(ctx, P, fn, stem, isa, maxn):
     # kernels that look at the numeric address of a buffer (alignment prologues) are analysed once per
     # alignment class: each pointer parameter takes every residue 0..63 while the others stay aligned
     aligns = [None]
-    if _casts_pointer_to_integer(P, fn):
+    uses_aligned = _uses_aligned_intrinsic(P, fn)
+    misal = None
+    if _casts_pointer_to_integer(P, fn) or uses_aligned:
         bases = ["b%d" % i for i in con["bufs"]]
         aligns = [dict((b, (m if b == vb else 0)) for b in bases) for vb in bases for m in range(64)]
         counts = [c for c in counts if c <= 192]
@@ -200,6 +236,15 @@ def run_kernel(ctx, P, fn, stem, isa, maxn):
                     ctx.inconclusive("R10.extent", "kernel-extent|" + key0, P.where(um[0][2]),
                                      "%s accesses a contract buffer at a content-dependent offset" % fn.name)
                     return runs
+            # a buffer of T is at least T-aligned: residues that are not multiples of the element size are not inputs
+            real_ = [x for x in it.misaligned
+                     if not (al and x[2].startswith("b") and al.get(x[2], 0) % max(1, _esz(fn.params[int(x[2][1:])]["t"])))
+                     and not (al and any(m_ % max(1, _esz(fn.params[int(b2[1:])]["t"])) for b2, m_ in al.items() if m_))]
+            if real_ and misal is None:
+                nm_, ln_, b_, r_, w_ = real_[0]
+                misal = "count=%s, `%s` %s: %s at line %d needs %d-byte alignment, the address is %d past one" % (
+                    n, fn.params[int(b_[1:])]["n"] if b_.startswith("b") else b_,
+                    "aligned" if al is None or not al.get(b_) else "misaligned by %d" % al.get(b_), nm_, ln_, w_, r_)
             for acc, ret in outs:
                 runs += 1
                 cover = {}
@@ -231,6 +276,10 @@ def run_kernel(ctx, P, fn, stem, isa, maxn):
            "count=%s%s: %s of `%s` bytes [%s,%s) outside extent %s (line %s)" % (
                bad[0], "" if bad[1] is None else " offset=%s" % bad[1], {"r": "read", "w": "write"}[bad[7]],
                bad[3], bad[4], bad[5], bad[6], bad[8]) if bad else "")
+    if uses_aligned:
+        ctx.ob("R10.aligned", "kernel-aligned|" + key0, P.where(fn.body),
+               "%s (%s): every alignment-requiring load / store / stream instruction gets an aligned address, whatever the alignment of the caller's buffers "
+               "(each buffer at every residue 0..63)" % (fn.name, isa), misal is None, misal or "")
     if any(m for (_, _, m) in con["bufs"].values()):
         ctx.ob("R10.cover", "kernel-cover|" + key0, P.where(fn.body),
                "%s (%s): for every count the whole output extent is written" % (fn.name, isa), miss is None,
